@@ -6,7 +6,7 @@ Confirms an independently written break (sub-agent output in <worktree>/_seed/) 
  3. the repository's own test suite still passes with the patch (run in the agent's built worktree, .trs files),
  4. which /verif checks (quick tier) report it.
 Writes seeded/<id>/{patch.diff,demo.*,notes.md,meta.json}."""
-import glob, json, os, re, shutil, subprocess, sys, tempfile
+import os, glob, json, os, re, shutil, subprocess, sys, tempfile
 V = os.path.dirname(os.path.dirname(os.path.abspath(__file__)))
 sid, wt, prim = sys.argv[1], sys.argv[2], sys.argv[3]
 checks = [prim] + sys.argv[4:]
@@ -57,6 +57,7 @@ try:
     for p in glob.glob(os.path.join(wt, "test", "**", "*.trs"), recursive=True):
         os.unlink(p)
     subprocess.run(["make", "-C", wt, "check", "-j8"], capture_output=True, text=True)
+    subprocess.run(["sh", os.path.join(os.path.dirname(os.path.abspath(__file__)), "fixdev.sh")])  # the suite (nasm as root) can replace /dev/stdout by a regular file
     ok = set()
     for p in glob.glob(os.path.join(wt, "test", "**", "*.trs"), recursive=True):
         rr = re.findall(r"^:test-result: (\S+)", open(p).read(), re.M)
